@@ -96,6 +96,15 @@ NP_CALLS = [
     ('array_equal', [[1, 2], [1, 2]]), ('array_equal', [[1, 2], [1, 3]]), ('array_equal', [[], [1]]),
     ('searchsorted', [[1, 3, 5, 7], [3, 6]]), ('zeros', [3]), ('arange', [4]), ('full', [3, True]),
     ('corrcoef', [[1, 2, 3, 5], [2, 1, 4.5, 3]]), ('isclose', [[1, 2.000001, 3], [1.00000001, 2, 3.1]]), ('ones', [3]), ('clip', [[-1, 0.5, 3], 0, 1]), ('sign', [[-2, 0, 3.5]]), ('floor', [[-1.5, 2.25]]),
+    # second tier (symnp.ndx)
+    ('flatnonzero', [[0, 2, 0, 1.5]]), ('take', [[1.5, 2, 3, 4], [3, 0]]), ('ravel', [[[1, 2], [3.5, 4]]]), ('var', [[1, 2, 4.5]]),
+    ('logical_and', [[True, False, True], [True, True, False]]), ('logical_or', [[True, False, False], [False, False, True]]), ('logical_not', [[True, False]]),
+    ('less', [[1, 2.5, 3], [2, 2.5, 1]]), ('greater_equal', [[1, 2.5, 3], 2.5]), ('equal', [[1, 2.5], [1, 3]]), ('isin', [[1, 2.5, 3], [3, 1]]),
+    ('outer', [[1, 2], [3, 0.5]]), ('matmul', [[[1, 2], [3, 4]], [[0.5, 1], [2, 1]]]), ('einsum', ['ij,ij->i', [[1, 2], [3, 4]], [[0.5, 1], [2, 1]]]),
+    ('einsum', ['i,i->', [1, 2, 3], [0.5, 1, 2]]), ('trapezoid', [[1, 2, 4.5], [0, 1, 3]]), ('cumprod', [[1, 2, 3.5]]), ('insert', [[1, 2, 4], 1, 7.5]),
+    ('roll', [[1, 2, 3.5], 1]), ('tile', [[1, 2.5], 2]), ('repeat', [[1, 2.5], 2]), ('add', [[1, 2], [0.5, 1]]), ('subtract', [[1, 2], 0.5]), ('multiply', [[1, 2], [0.5, 3]]),
+    ('negative', [[1, -2.5]]), ('reciprocal', [[2, 0.5]]), ('atleast_1d', [[1, 2.5]]), ('transpose', [[[1, 2], [3.5, 4]]]), ('squeeze', [[[1, 2.5]]]),
+    ('array', [[1, 2, 3]], dict(dtype=float)), ('zeros_like', [[1.5, 2]]), ('full_like', [[1.5, 2], 3]), ('arange', [1, 7, 2]),
     ('ceil', [[-1.5, 2.25]]), ('flip', [[1, 2, 3.5]]), ('count_nonzero', [[0, 2, 0, 1.5]]), ('vstack', [([1, 2], [3, 4.5])]), ('linspace', [0, 1, 5]),
 ]
 
@@ -110,7 +119,7 @@ def _np_checks(L, fails):
             sargs = [_fr(a) if not isinstance(a, tuple) else tuple(_fr(list(x)) for x in a) for a in args]
             skw = {k: _fr(v) for k, v in kw.items()}
             got = getattr(L.np, name)(*sargs, **skw)
-            rargs = [np.array(a, dtype=float) if isinstance(a, list) and name not in ('all', 'any', 'argsort', 'unique', 'delete', 'searchsorted') else
+            rargs = [np.array(a, dtype=float) if isinstance(a, list) and name not in ('all', 'any', 'argsort', 'unique', 'delete', 'searchsorted', 'take') else
                      (tuple(np.array(x, dtype=float) for x in a) if isinstance(a, tuple) else a) for a in args]
             want = getattr(np, name)(*rargs, **kw)
             n += 1
